@@ -115,6 +115,30 @@ fn run_bn(ctx: &mut Ctx) {
             }
         }
     }
+    // Observation (recorded, not an oracle failure): `Bn256::Result` is the bare `Fq12`, so the `+` that
+    // the `MillerLoopResult` trait requires is the *field addition*; combining two Miller-loop results
+    // with `+` (which multiplies for BLS12-381) does not give the product of the pairings here.
+    {
+        let (p1, q1) = bn_point_pair(&mut rng, &r, 7);
+        let (p2, q2) = bn_point_pair(&mut rng, &r, 7);
+        let a = bn256::multi_miller_loop(&[(&p1, &q1)]);
+        let b = bn256::multi_miller_loop(&[(&p2, &q2)]);
+        let expect = bn256::Bn256::pairing(&p1, &q1) + bn256::Bn256::pairing(&p2, &q2);
+        let via_add = mzkh::catch(|| (a + b).final_exponentiation()).ok();
+        let via_mul = (a * b).final_exponentiation();
+        ctx.count(&format!("observation:bn-miller-result-add-is-field-addition:{}", if via_add == Some(expect) { "no" } else { "yes" }));
+        if via_mul != expect {
+            ctx.oracle_fail("bn:mml-mul-split", "product of two BN254 Miller-loop values does not reduce to the product of the pairings", json!({}));
+        }
+    }
+    // the reduced pairing against the optimal ate pairing computed from its definition
+    for i in 0..(if quick { 16 } else { 64 }) {
+        let (pt, qt) = bn_point_pair(&mut rng, &r, i);
+        let e = bn256::Bn256::pairing(&pt, &qt);
+        let nontrivial = !bool::from(pt.is_identity()) && !bool::from(qt.is_identity());
+        ctx.case("bn-ate", nontrivial, &format!("bn-ate {}|{}", bn_g1_str(&pt), bn_g2_str(&qt)), &fmt_el(&bn12_out(&e.verif_fq12())));
+        ctx.count(&format!("bn-ate:{}", if nontrivial { "points" } else { "identity" }));
+    }
     // final exponentiation: Miller-loop outputs, random and boundary field elements
     let mut inputs: Vec<(bn256::Fq12, &'static str)> = vec![];
     for (i, f) in outputs.iter().enumerate() {
